@@ -110,9 +110,12 @@ def decide(got, want, obs=ALL):
         return ('eq', 'same term')
     Lin = T.Lin
     common = {a: k for a, k in got.t.items() if want.t.get(a) == k}
-    g2 = Lin(got.c, {a: k for a, k in got.t.items() if a not in common})
-    w2 = Lin(want.c, {a: k for a, k in want.t.items() if a not in common})
-    r = equal_on(g2, w2, obs if not common else ALL)
+    same_c = got.c == want.c and got.c != 0
+    g2 = Lin(0 if same_c else got.c, {a: k for a, k in got.t.items() if a not in common})
+    w2 = Lin(0 if same_c else want.c, {a: k for a, k in want.t.items() if a not in common})
+    if common or same_c:
+        obs = ALL           # a summand was cancelled: the rest has to agree on every bit (carries)
+    r = equal_on(g2, w2, obs)
     if r is True:
         return ('eq', 'bit by bit' + ('' if obs == ALL else ' on the observable bits %#x' % obs))
     if isinstance(r, tuple):
@@ -121,7 +124,7 @@ def decide(got, want, obs=ALL):
                 a_, b_ = T.term_eval(got.canon(), vals), T.term_eval(want.canon(), vals)
             except Exception:
                 break
-            if (a_ ^ b_) & (obs if not common else ALL):
+            if (a_ ^ b_) & obs:
                 return ('neq', 'bit %d depends on different inputs; e.g. %#x instead of %#x' % (r[1], a_, b_))
         return ('neq', 'bit %d depends on different inputs' % r[1])
     for vals in T.VALUATIONS:
